@@ -11,7 +11,7 @@ use neurons::tensor::Tensor;
 pub fn meta(ctx: &Ctx) -> Meta {
     let t = ctx.tier.thorough();
     Meta {
-        rule: format!("every layer sequence of <= {} tokens (one configuration deviation) over 5 input shapes that ends in a dense layer x EVERY subset of droppable layers (dense, convolution, deconvolution, layers inside feedback blocks) of size 1..{} carrying dropout (rates 0.5, 0.1, 0.9 depending on the subset) x epochs {{1,2,3}} x with/without validation data. Differential oracles, bit-exact: (i) the last validation pair returned by learn() equals validate() called right afterwards, and the e-th pair of a 3-epoch run equals the last pair of the e-epoch run; (ii) after learn(), predict equals predict of a twin network built WITHOUT dropout holding the same weights; (iii) validate()/predict() of a never-trained network equal the twin's; (iv) every training flag is off after learn() and after validate(); (v) the same after a run that left learn() through its early-stopping exit (tolerance 1); (vi) the same along the call sequence validate, learn (with validation), learn (without), learn (with validation), validate. Non-trivial = a case in which the training-mode forward pass differs from the evaluation-mode one (the mask zeroed a non-zero element)", if t { 4 } else { 3 }, if t { "all" } else { "2" }),
+        rule: format!("every layer sequence of <= {} tokens (one configuration deviation) over 5 input shapes that ends in a dense layer x EVERY subset of droppable layers (dense, convolution, deconvolution, layers inside feedback blocks) of size 1..{} carrying dropout (rates 0.5, 0.1, 0.9 depending on the subset) x epochs {{1,2,3}} x with/without validation data. Differential oracles, bit-exact: (i) the last validation pair returned by learn() equals validate() called right afterwards, and the e-th pair of a 3-epoch run equals the last pair of the e-epoch run; (ii) after learn(), predict equals predict of a twin network built WITHOUT dropout holding the same weights; (iii) validate()/predict() of a never-trained network equal the twin's; (iv) every training flag is off after learn() and after validate(); (v) the same after a run that left learn() through its early-stopping exit (tolerance 1); (vii) on every 16th case a validation set of 300 samples; (vi) the same along the call sequence validate, learn (with validation), learn (without), learn (with validation), validate. Non-trivial = a case in which the training-mode forward pass differs from the evaluation-mode one (the mask zeroed a non-zero element)", if t { 4 } else { 3 }, if t { "all" } else { "2" }),
         bound: format!("depth <= {}, dropout rates 0.1/0.5/0.9 (fixed-seed mask), 3 samples, batch 2", if t { 4 } else { 3 }),
         exhaustive: true,
         assumptions: vec!["Tensor::dropout uses a fixed seed, so training runs are deterministic and differential comparisons are bit-exact".into()],
@@ -254,6 +254,36 @@ pub fn check(seed: u64, case: &Kv, rep: &mut Report) {
             }
         }
     }
+    // beyond the small bound: 300 validation samples (more than four internal chunks), one epoch
+    if case.opt("bigval").is_some() {
+        let bvx: Vec<Tensor> = (0..300).map(|_| tensor(net.input, &mk(&mut r, n_in))).collect();
+        let bvt: Vec<Tensor> = (0..300).map(|_| Tensor::single(mk(&mut r, n_out))).collect();
+        let (bx, bt): (Vec<&Tensor>, Vec<&Tensor>) = (bvx.iter().collect(), bvt.iter().collect());
+        let mut l = fresh(&net).unwrap();
+        rep.transitions += 600;
+        match guard(|| {
+            let (_, vl, va) = l.learn(&xr, &tr, Some((&bx, &bt, 10)), 2, 1, None);
+            let after = l.validate(&bx, &bt, 1e-6);
+            (vl, va, after)
+        }) {
+            Ok((vl, va, after)) => {
+                if vl.len() == 1 && (vl[0].to_bits() != after.0.to_bits() || va[0].to_bits() != after.1.to_bits()) {
+                    rep.violate(
+                        format!("C09 validation metrics on a large validation set are not those of the dropout-free network [{}]", cls),
+                        format!("{}: learn() reported ({:e}, {}) on 300 samples, validate() gives ({:e}, {})", net.name(), vl[0], va[0], after.0, after.1),
+                        case,
+                    );
+                    return;
+                }
+            }
+            Err(e) => {
+                if !e.contains("Loss is NaN") {
+                    rep.violate("C09 learn panics", format!("{}: {}", net.name(), crate::util::first_line(&e)), case);
+                    return;
+                }
+            }
+        }
+    }
     // a longer life: validate -> learn(with validation) -> learn(without) -> learn(with validation) -> validate
     {
         let mut l = fresh(&net).unwrap();
@@ -319,7 +349,12 @@ pub fn cases(ctx: &Ctx) -> Vec<Kv> {
             if !t && mask.count_ones() > 2 {
                 continue;
             }
-            out.push(Kv::new().put("net", with_dropout(&net, mask).name()));
+            let mut kv = Kv::new().put("net", with_dropout(&net, mask).name());
+            // every 16th case also gets a validation set of 300 samples
+            if (out.len() % 16) == 0 {
+                kv.set("bigval", 1);
+            }
+            out.push(kv);
         }
     }
     out
